@@ -1,14 +1,76 @@
-(* Props/C05.v -- placeholder until the parser proofs land: entry points agree definitionally. *)
-From JsonSyntax Require Import Base.Prelude Base.Value Base.Unicode Model.Parser Model.EntryPoints.
+(* Props/C05.v -- code map: one exact source span and volume per fragment, in pre-order.
+   Statements only.  Specification: Spec/Preorder.v (pre-order list of fragments, subtree
+   volumes computed from the value alone) and the spans the annotated grammar assigns. *)
+From JsonSyntax Require Import Base.Prelude Base.Value Base.Unicode Base.Source Model.Parser Model.EntryPoints
+  Model.CodeMapNav Spec.Grammar Spec.Preorder Spec.Utf8Spec Proofs.ParserSpec Proofs.ParserCorollaries Proofs.CodeMapShape.
 
-Theorem C05_entry_points_text : forall cs,
-  parse_str cs = parse_str_with strict cs /\
-  parse_str cs = parse_utf8 cs /\
-  parse_str cs = parse_utf8_with strict cs /\
-  parse_str cs = parse_infallible_utf8 cs /\
-  parse_str cs = parse_utf8_infallible_with strict cs /\
-  parse_str cs = parse (chars cs) /\
-  parse_str cs = parse_with strict (chars cs).
-Proof. exact (fun cs => conj eq_refl (conj eq_refl (conj eq_refl (conj eq_refl (conj eq_refl (conj eq_refl eq_refl)))))). Qed.
+(* everything at once, for the parser, on every error-free stream, under every option record:
+   volumes are the subtree fragment counts in pre-order, one entry per fragment, every volume
+   >= 1, spans inside the input, and entry i is located exactly on the text of fragment i *)
+Theorem C05_parser : forall o s v m,
+  stream_ok s -> Forall (fun it => fst it <= 0x10FFFF) (items_of s) ->
+  parse_items o s = Ok (v, m) ->
+  map (fun e => N.to_nat (snd e)) m = volumes v /\
+  length m = length (preorder v) /\
+  shaped m 0 v /\
+  Forall (fun e => 1 <= snd e) m /\
+  Forall (fun e => match e with (a, b, _) => a <= b /\ b <= blen (items_of s) end) m /\
+  Forall2 (located o (items_of s)) (preorder v) m.
+Proof. exact CodeMapShape.C05_parser. Qed.
 
-Print Assumptions C05_entry_points_text.
+(* the code map the parser returns is THE code map the grammar assigns (both directions) *)
+Theorem C05_code_map_is_grammar : forall o cs v m,
+  Forall (fun c => c <= 0x10FFFF) cs ->
+  (parse_str_with o cs = Ok (v, m) <-> jtext o (text_items cs) v m).
+Proof. exact parse_str_spec. Qed.
+
+(* the root's volume is the length of the map *)
+Theorem C05_root_volume : forall o s v m, jtext o s v m ->
+  exists a b r, m = (a, b, N.of_nat (length m)) :: r.
+Proof. exact jtext_root_volume. Qed.
+
+(* entry i's span is exactly the source text of fragment i: the slice it cuts out is itself
+   a derivation of that value / key / entry ... *)
+Theorem C05_span_exact : forall o s v m, jtext o s v m -> forall i f a b vl,
+  nth_error (preorder v) i = Some f -> nth_error m i = Some (a, b, vl) ->
+  exists pre mid post, s = pre ++ mid ++ post /\ blen pre = a /\ blen (pre ++ mid) = b /\
+    match f with
+    | FValue x => exists m', jv o mid x m'
+    | FKey k => jstr o (cps mid) k
+    | FEntry k x => exists m', jentry o mid k x m'
+    end.
+Proof. exact span_exact. Qed.
+
+(* ... and begins and ends on significant characters *)
+Theorem C05_span_trimmed : forall o s v m, jtext o s v m -> forall i f a b vl,
+  nth_error (preorder v) i = Some f -> nth_error m i = Some (a, b, vl) ->
+  exists pre mid post, s = pre ++ mid ++ post /\ blen pre = a /\ blen (pre ++ mid) = b /\
+    mid <> [] /\ ws_char (fst (hd (0, 0) mid)) = false /\ ws_char (fst (last mid (0, 0))) = false.
+Proof. exact span_trimmed. Qed.
+
+(* the root span excludes the surrounding white space *)
+Theorem C05_root_span : forall o s v m, jtext o s v m ->
+  Forall (fun e => match e with (a, b, _) => a <= b /\ b <= blen s end) m /\
+  exists pre mid post r, s = pre ++ mid ++ post /\ ws pre /\ ws post /\
+    m = (blen pre, blen (pre ++ mid), N.of_nat (length m)) :: r.
+Proof. exact jtext_spans_inside. Qed.
+
+(* byte-slice and string entry points return the same pair on well-formed bytes *)
+Theorem C05_slice_is_str : forall o cs, scalars cs ->
+  parse_slice_with o (utf8_encode_all cs) = parse_str_with o cs.
+Proof. exact ParserCorollaries.C01_slice_is_str. Qed.
+
+Example C05_example :
+  parse_str (s2l " [ {}, {""a"" : [] } ] ")
+  = Ok (VArr [VObj []; VObj [([0x61], VArr [])]],
+        [(1, 20, 6); (3, 5, 1); (7, 18, 4); (8, 16, 3); (8, 11, 1); (14, 16, 1)]).
+Proof. vm_compute. reflexivity. Qed.
+
+Print Assumptions C05_parser.
+Print Assumptions C05_code_map_is_grammar.
+Print Assumptions C05_root_volume.
+Print Assumptions C05_span_exact.
+Print Assumptions C05_span_trimmed.
+Print Assumptions C05_root_span.
+Print Assumptions C05_slice_is_str.
+Print Assumptions C05_example.
